@@ -3,8 +3,8 @@
    (hypotheses of the theorems; sampled against scipy.stats.norm.ppf at run time). *)
 From Coq Require Import Reals QArith List.
 From Zepid Require Import Base.Wald Base.QSum Base.Rows Model.Estimators Model.Variance Proofs.VarianceProofs
-     GenProofs.GenProofs_calc GenProofs.GenProofs_ic.
-From ZepidGen Require Import Gen_calc_R Gen_ic_Q Gen_aipw_Q.
+     GenProofs.GenProofs_calc GenProofs.GenProofs_ic GenProofs.GenProofs_pool.
+From ZepidGen Require Import Gen_calc_R Gen_ic_Q Gen_aipw_Q Gen_pool_Q.
 Import ListNotations.
 
 Definition zq_ok (zq : R -> R) : Prop :=
@@ -135,6 +135,14 @@ Theorem C06_src_aipw_pseudo : forall r, ~ pa1 r == 0 -> ~ pa0 r == 0 ->
   (exists x, aipw_y0_Q (trt r) (pa0 r) (q0 r) (yval r) = [Some x] /\ x == aipw_y0 r).
 Proof. intros r H1 H0; split; [exact (gen_aipw_y1 r H1) | exact (gen_aipw_y0 r H0)]. Qed.
 
+(* the pooling function of the CURRENT source (which aggregate per `method`, which elementwise term) is the model's *)
+Theorem C06_src_pool_median : forall pts vars,
+  fst (pool_median_Q pts vars) = fst (pool true pts vars) /\ snd (pool_median_Q pts vars) == snd (pool true pts vars).
+Proof. exact gen_pool_median. Qed.
+Theorem C06_src_pool_mean : forall pts vars,
+  fst (pool_mean_Q pts vars) = fst (pool false pts vars) /\ snd (pool_mean_Q pts vars) == snd (pool false pts vars).
+Proof. exact gen_pool_mean. Qed.
+
 Example C06_nonvacuous : fst (pool true [1#2; 1#4; 3#4] [1#100; 1#100; 4#100]) == 1 # 2 /\
   snd (pool true [1#2; 1#4; 3#4; 1] [1#100; 1#100; 4#100; 0]) == 157 # 1600 /\
   var_ddof1 [1; 2; 4] == 7 # 3 /\ ic_var [Some 1; None; Some 2; Some 4] 4 == 7 # 12.
@@ -171,3 +179,5 @@ Print Assumptions C06_src_tmle_ic_or.
 Print Assumptions C06_src_aipw_ic_rd.
 Print Assumptions C06_src_aipw_ic_rr.
 Print Assumptions C06_src_aipw_pseudo.
+Print Assumptions C06_src_pool_median.
+Print Assumptions C06_src_pool_mean.
